@@ -44,6 +44,7 @@ theorem clock (ops : PriceOps P) (m : Market P) (o : Op P) :
   | cancel id => exact (step_clock_past ops m (.cancel id) (by simp) (by simp)).2
   | exec => exact (step_clock_past ops m .exec (by simp) (by simp)).2
   | setRunning b => rfl
+  | setFund f => rfl
 
 /-- Recorded history never changes: whatever operation is performed, every value recorded for a
 time strictly before the current time (market, mid, last-trade and fundamental price, executed
@@ -86,6 +87,11 @@ theorem history_never_changes (ops : PriceOps P) (m : Market P) (hinv : Inv m) (
     unfold Market.pastAt
     rw [hp.1, hp.2]
   | setRunning b => rfl
+  | setFund f =>
+    -- an event rewriting the *current* step's fundamental price: the recorded past is untouched
+    simp only [Market.step]
+    rw [slotAt_past m t ht, slotAt_past _ t (by exact ht)]
+    rfl
 
 /-- … and the value that was current when the clock stepped is what is recorded for that time. -/
 theorem tick_records_current (ops : PriceOps P) (m : Market P) (hinv : Inv m) (f : Option P) :
